@@ -153,8 +153,9 @@ def gen(tier, seed):
     for text in decs:
         bits = str(struct.unpack("<Q", struct.pack("<d", float(text)))[0])
         add(out(lit(["f", bits, text])), [], "decimal literal")
-    alphabet = ["a", " ", "é", "√", "𝄞", "{", "}", "%", "|", ":", ",", ".", "-", "0", "\\", "\n", "\t", "{{", "}}", "{%", "%}", "nil", "<", "&"]
-    strs = ["", "abc", "it's", 'say "hi"', "{{ x }}", "{% if %}", "a | upcase", "line\nbreak", "tab\there", "back\\slash", "é√𝄞", "  ", "-}}", "nil", "true", "0"]
+    alphabet = ["'", '"', "a", " ", "é", "√", "𝄞", "{", "}", "%", "|", ":", ",", ".", "-", "0", "\\", "\n", "\t", "{{", "}}", "{%", "%}", "nil", "<", "&"]
+    strs = ["", "abc", "it's", 'say "hi"', "{{ x }}", "{% if %}", "a | upcase", "line\nbreak", "tab\there", "back\\slash", "é√𝄞", "  ", "-}}", "nil", "true", "0",
+            "'hello'", "'", "''", "'a", "a'", "x'y'z'", '"hello"', '"', '""', '"a', 'a"', "'\"", " 'q' ", "'é'"]   # quotes of the other style at either end and inside
     for _ in range(60 if tier == "quick" else 1500):
         strs.append("".join(rnd.choice(alphabet) for _ in range(rnd.randint(0, 6))))
     for s in strs:
